@@ -22,6 +22,7 @@
 // observation lines:
 //   V <hex RIME_VERSION>
 //   O <case> <opidx> <ret> [order=..] db<i> <dump>
+//   B <case> <opidx> <restore ret> <dump>   after backup/sync/ubackup: the written snapshot restored into a fresh empty dictionary
 //   E <case> db0 <dump> | ... | s<i>=<hex snapshot> ... | f<s>=<hex file> ...
 //   dump := tick=<hex|-> uid=<hex|-> name=<hex|-> type=<hex|-> n=<k> <keyhex>:<commits>:<tick> ...
 #include "../common/rime_env.h"
@@ -110,6 +111,20 @@ static std::string dump_db(int i) {
   out << "n=" << rows.size();
   for (auto& r : rows) out << " " << r;
   return out.str();
+}
+
+// round-trip probe: restore the snapshot just written into a fresh, empty dictionary of a scratch
+// installation (UserDictManager::Restore) and dump it
+static const int kProbeUser = kMaxUsers - 1;
+static std::string probe_restore(const fs::path& snapshot) {
+  fs::remove_all(user_dir(kProbeUser));
+  use_user(kProbeUser);
+  Deployer& deployer(Service::instance().deployer());
+  UserDictManager mgr(&deployer);
+  bool ok = mgr.Restore(path(snapshot));
+  std::string d = dump_db(kProbeUser);
+  fs::remove_all(user_dir(kProbeUser));
+  return std::string(ok ? "1 " : "0 ") + d;
 }
 
 // overwrite the stack region the next calls will use with the garbage word
@@ -289,7 +304,13 @@ int main(int argc, char** argv) {
       std::cout << "\n";
     } else if (f[0] == "OP") {
       std::string r = do_op(f);
-      std::cout << "O " << cid << " " << opidx++ << " " << r << " db" << f[2] << " " << dump_db(std::stoi(f[2])) << "\n";
+      std::cout << "O " << cid << " " << opidx << " " << r << " db" << f[2] << " " << dump_db(std::stoi(f[2])) << "\n";
+      // after every backup: what does the written snapshot restore to?
+      if ((f[1] == "backup" || f[1] == "sync") && fs::exists(snap_path(std::stoi(f[2]))))
+        std::cout << "B " << cid << " " << opidx << " " << probe_restore(snap_path(std::stoi(f[2]))) << "\n";
+      else if (f[1] == "ubackup" && f.size() > 3 && fs::exists(file_slot(std::stoi(f[3]))))
+        std::cout << "B " << cid << " " << opidx << " " << probe_restore(file_slot(std::stoi(f[3]))) << "\n";
+      ++opidx;
     } else if (f[0] == "END") {
       std::cout << "E " << cid;
       for (int i : users) std::cout << " db" << i << " " << dump_db(i) << " |";
